@@ -1,6 +1,8 @@
 package setec
 
 import (
+	"context"
+	"errors"
 	"strings"
 	"time"
 )
@@ -8,7 +10,7 @@ import (
 // C11/C19: one Refresh from an arbitrary store state against an arbitrary service state.
 func verifHarnessC11Refresh() {
 	verifEnvReset()
-	client := &verifClient{mayFail: true}
+	client := &verifClient{mayFail: true, mayLack: true}
 	cache := &verifCache{mayFail: true}
 	s := verifSymStore(param("names"), client, cache)
 	assume(verifStoreInv(s))
@@ -21,16 +23,33 @@ func verifHarnessC11Refresh() {
 
 	rctx := &verifCtx{tag: "refresh"}
 	client.mayCancel = rctx // the caller may give up between two requests of the poll
+	// another caller's poll (say the background tick) may be in flight: this refresh joins it, and this caller may give up first
+	verifSF.joinPoll = true
+	verifSF.onJoin = func() { rctx.cancelled = true }
 
 	err := s.Refresh(rctx)
 
 	assert("inv", verifStoreInv(s))
 	assert("lock-released", notHeld(&s.active))
+	if ghostCount("sf.joined") > 0 {
+		assert("joiner-that-gives-up-reports-its-context-error", errors.Is(err, context.Canceled))
+		assert("joining-refresh-sends-no-requests-of-its-own", client.requests == 0)
+		assert("joining-refresh-changes-nothing-itself", deepEq(s.active.m, pre))
+		reach("end-joined-gave-up")
+		return
+	}
 	if symbolic() {
 		assert("poll-runs-inside-one-singleflight", len(verifSF.keys) == 1)
 		assert("poll-coalesced-under-a-key-that-is-not-a-lookup-key", not(strings.HasPrefix(verifSF.keys[0], "lookup:")))
 	}
-	failed := ghostCount("svc.failed") > 0
+	failed := ghostCount("svc.failed") > 0 || ghostCount("svc.notfound") > 0
+	// C19: a name is dropped only if undeclared, expiry configured, stale, and without a handle (whatever the service answered)
+	assert("only-stale-unreferenced-undeclared-expire", mapAll(pre, func(name string, old *cachedSecret) bool {
+		dropped := not(mapHas(s.active.m, name))
+		age := timeAgeNS(now, old.LastAccess)
+		mayDrop := and(not(old.Declared), s.expiryAge > 0, age > int64(s.expiryAge), not(mapHas(hadHandle, name)))
+		return implies(dropped, mayDrop)
+	}))
 	if err != nil {
 		assert("error-only-from-failed-request-or-cache-or-own-cancellation", or(failed, ghostCount("cache.write.call") > ghostCount("cache.write"), rctx.cancelled))
 	}
@@ -51,13 +70,6 @@ func verifHarnessC11Refresh() {
 		return and(cs.Secret.Version == sv.Version,
 			implies(same, bytesEq(cs.Secret.Value, old.Secret.Value)),
 			implies(not(same), bytesEq(cs.Secret.Value, sv.Value)))
-	}))
-	// C19: a name is dropped only if undeclared, expiry configured, stale, and without a handle
-	assert("only-stale-unreferenced-undeclared-expire", mapAll(pre, func(name string, old *cachedSecret) bool {
-		dropped := not(mapHas(s.active.m, name))
-		age := timeAgeNS(now, old.LastAccess)
-		mayDrop := and(not(old.Declared), s.expiryAge > 0, age > int64(s.expiryAge), not(mapHas(hadHandle, name)))
-		return implies(dropped, mayDrop)
 	}))
 	assert("nothing-added", mapAll(s.active.m, func(name string, _ *cachedSecret) bool { return mapHas(pre, name) }))
 	assert("access-times-and-declared-kept", mapAll(s.active.m, func(name string, cs *cachedSecret) bool {
